@@ -71,23 +71,24 @@ Judge(s, p, x, rec) ==
     [] rec.k = "eventless" ->
          IF p # "macro" THEN Bad(s, "shape")
          ELSE LET el == SelectG(D, s.cfg, s.hist, s.data, GV(rec.gv), <<>>) IN
-              IF el = <<>> THEN Bad(s, "enabled") ELSE AfterSelect(rec, Clear(s), el, "macro", x)
+              \* (events queued during the selection itself - a guard that failed to evaluate - precede those of the microstep)
+              IF el = <<>> THEN Bad(s, "enabled") ELSE AfterSelect(rec, [Clear(s) EXCEPT !.iq = @ \o rec.senq], el, "macro", x)
     [] rec.k = "internal" ->
          IF p # "macro" THEN Bad(s, "shape")
          ELSE IF ~rec.elchk \/ SelectG(D, s.cfg, s.hist, s.data, GV(rec.egv), <<>>) # <<>> THEN Bad(s, "rtc-eventless-first")
-         ELSE IF s.iq = <<>> THEN Bad(s, "rtc-iq-empty")
-         ELSE IF Head(s.iq) # rec.ev THEN Bad(s, "rtc-fifo")
-         ELSE LET s1 == [Clear(s) EXCEPT !.iq = Tail(@)] IN
+         ELSE IF s.iq \o rec.esenq = <<>> THEN Bad(s, "rtc-iq-empty")
+         ELSE IF Head(s.iq \o rec.esenq) # rec.ev THEN Bad(s, "rtc-fifo")
+         ELSE LET s1 == [Clear(s) EXCEPT !.iq = Tail(s.iq \o rec.esenq) \o rec.senq] IN
               AfterSelect(rec, s1, SelectG(D, s1.cfg, s1.hist, s1.data, GV(rec.gv), rec.ev), "macro", x)
     [] rec.k = "idle" ->
          IF p # "macro" THEN Bad(s, "shape")
          ELSE IF ~rec.elchk \/ SelectG(D, s.cfg, s.hist, s.data, GV(rec.egv), <<>>) # <<>> THEN Bad(s, "rtc-eventless-first")
-         ELSE IF s.iq # <<>> THEN Bad(s, "rtc-idle-with-iq")
+         ELSE IF s.iq \o rec.esenq # <<>> THEN Bad(s, "rtc-idle-with-iq")
          ELSE Res(s, "idle", x, "")
     [] rec.k = "external" ->
          IF p # "idle" \/ rec.pre # <<>> THEN Bad(s, "shape")
          ELSE IF x >= Len(T.sent) \/ T.sent[x + 1] # rec.ev THEN Bad(s, "xorder")
-         ELSE AfterSelect(rec, Clear(s), SelectG(D, s.cfg, s.hist, s.data, GV(rec.gv), rec.ev), "macro", x + 1)
+         ELSE AfterSelect(rec, [Clear(s) EXCEPT !.iq = @ \o rec.senq], SelectG(D, s.cfg, s.hist, s.data, GV(rec.gv), rec.ev), "macro", x + 1)
     [] rec.k = "cancel" ->
          IF p # "idle" THEN Bad(s, "shape")
          ELSE IF x # Len(T.sent) THEN Bad(s, "xorder")
